@@ -74,3 +74,13 @@ Theorem C03_hkdf_extract : forall salt ikm,
   sha256_hkdf_extract salt ikm = sha256_hkdf_extract_spec salt ikm.
 Proof. exact hkdf_extract_both. Qed.
 Print Assumptions C03_hkdf_extract.
+
+(* HKDF-Expand (RFC 5869): the loop of hkdf.c equals T(1)||T(2)||... truncated to L for
+   every L up to 255 digests, and is refused (counter wrap) beyond. *)
+Theorem C03_hkdf_expand : forall prk info L,
+  (L <= 255 * 32 ->
+     sm3_hkdf_expand prk info L = Some (sm3_hkdf_expand_spec prk info L) /\
+     sha256_hkdf_expand prk info L = Some (sha256_hkdf_expand_spec prk info L)) /\
+  (255 * 32 < L -> sm3_hkdf_expand prk info L = None /\ sha256_hkdf_expand prk info L = None).
+Proof. exact hkdf_expand_both. Qed.
+Print Assumptions C03_hkdf_expand.
